@@ -15,7 +15,7 @@ NAMES = ['x', 'y']
 
 
 class Conc(object):
-    def __init__(self, p, variant=0, taint=False, names=None, imports=False):
+    def __init__(self, p, variant=0, taint=False, names=None, imports=False, heavy=()):
         self.p = p
         self.par, self.kind, self.uses = p['par'], p['kind'], p['uses']
         self.n = len(self.par)
@@ -32,6 +32,7 @@ class Conc(object):
         self.taint = taint
         self.imports = imports      # stores in statement scopes are spelled `import name` (an alias-less import is expensive to rename)
         self.import_tags = []
+        self.heavy = set(heavy)     # names whose loads are written three times (changes the order in which the assigner processes bindings)
         self.src = '\n'.join(self.body(1, 0)) + '\n'
 
     def T(self, s, nm, how):
@@ -92,7 +93,8 @@ class Conc(object):
             r = []
             for nm in self.names:
                 if 'load' in self.u(s, nm):
-                    r += self.guarded(pad, 'emit(%s, %s)' % (self.T(s, nm, 'load'), self.cn[nm]))
+                    for _rep in range(3 if nm in self.heavy else 1):
+                        r += self.guarded(pad, 'emit(%s, %s)' % (self.T(s, nm, 'load'), self.cn[nm]))
             return r
 
         def stores():
@@ -256,7 +258,7 @@ def observe(job):
     """job: {id, p, variant, opts: {rl, rg, taint, presL, presG}}.  Returns the Trace_Rename observation record (or a skip marker)."""
     import python_minifier
     o = job['opts']
-    conc = Conc(job['p'], variant=job.get('variant', 0), taint=o.get('taint', False), names=job.get('names'), imports=job.get('imports', False))
+    conc = Conc(job['p'], variant=job.get('variant', 0), taint=o.get('taint', False), names=job.get('names'), imports=job.get('imports', False), heavy=job.get('heavy', ()))
     src = conc.src
     try:
         compile(src, 'in', 'exec')
